@@ -654,6 +654,7 @@ def undefine_unused_variables(source: str, preserve: Collection[str] = frozenset
     for scope in core.walk(root, ast.ClassDef):
         for node in core.filter_nodes(scope.body, (ast.Assign, ast.AnnAssign, ast.AugAssign)):
             class_body_blacklist.update(parsing.assignment_targets(node))
+            class_body_blacklist.add(node)
 
     yielded = set()
     for name in _iter_unused_names(root):
